@@ -21,6 +21,9 @@
      (12 ..)                     CBOR length headers rewritten: measured only
      (16 mode n)                 n annotations with inline data whose "@id" is the empty string; mode 0 store,
                                  1 annotate_from_file; result (0 number of data items)
+     (17 mode ctype kinds)       one Composite (0) / Multi (1) / Directional (2) selector over the sub-selector kinds
+                                 (0 resource, 1 annotation, 2 text, 3 data set, 4 key, 5 data, 6 annotation with offset),
+                                 all resolvable; mode 0 STAM JSON, 1 STAM CSV, 2 annotate_from_file; result (0)
      (15 cfg request)            the request under Config variant cfg: same prediction
      (13 mode (keys data) (keys data))  one data set defined twice (sub-stores, with_file, merge_json_str,
                                  merge_json_file, two set objects in one merged file); data = ((id key) ..);
@@ -230,6 +233,14 @@ Definition run_inner (x : sx) : sx :=
                end in
       L [triple (safety_sx o false) (L [A 0]) 0; triple (res_sx o) (res_sx o) 0]
   | 13%nat => run_merge x
+  | 17%nat =>
+      (* one complex selector over many resolvable sub-selectors of mixed kinds: the comparator of
+         subselectors() has an arm for every pair now ([old = false]), the annotation is built *)
+      let kinds := map (fun k => match sx_nat k with 6%nat => KAnnotation | n => kind_of_nat n end) (sx_list (sx_nth 3 x)) in
+      let e := {| v_id := None; v_build := true; v_kinds := kinds |} in
+      let r := visit_doc upper_run cap_slots cap_slots true false {| slots := 1; alloc := 0; placed := [0] |} [[e]] in
+      let res := match fst r with SOk => L [A 0] | SErr => L [A 1] | _ => L [A 9] end in
+      L [triple (L [A (safety_of (fst r) (alloc (snd r)))]) (L [A 0]) 0; triple res (L [A 0]) 0]
   | 16%nat =>
       (* n annotations with one inline data item each, every item with "@id": "" (= no identifier)
          and its own value: n data items *)
